@@ -205,7 +205,28 @@ def observe(rec):
         stats["probe.contended"] = 1
     plan = rec.case.get("plan") or []
     sig.append(tuple((f.get("as", f["kind"]), f.get("victim"), f["tick"]) for f in plan))
-    return {"stats": stats, "signature": tuple(sig), "nontrivial": waited}
+    # abstract lock states reached: (held?, depth, waiters, a fault is in flight?)
+    model = {}
+    fault_ticks = sorted(t for v in rec.world.faulted.values() for t, _ in v) \
+        if rec.world is not None else []
+    for ev in rec.trace:
+        kind = ev[4]
+        if not kind.startswith("lock.") or kind == "lock.avail":
+            continue
+        st = model.setdefault(ev[5], [0, 0])       # depth, waiting
+        if kind == "lock.req":
+            st[1] += 1
+        elif kind == "lock.enter":
+            st[0] += 1
+            st[1] = max(0, st[1] - 1)
+        elif kind == "lock.leave":
+            st[0] = max(0, st[0] - 1)
+        elif kind == "lock.abort":
+            st[1] = max(0, st[1] - 1)
+        in_flight = any(t <= ev[0] for t in fault_ticks)
+        states.add((min(st[0], 3), min(st[1], 4), in_flight, kind))
+    return {"stats": stats, "signature": tuple(sig), "nontrivial": waited,
+            "states": sorted(states)}
 
 LEVEL_TEXT = ("Fault enumeration: for each seeded contention scenario a cancel / until-interrupt / "
               "forceful close is injected at every kernel event (activation start or schedule "
